@@ -481,9 +481,19 @@ class KernelPCovR(_BasePCA, LinearModel):
         K_VV = self._get_kernel(X)
 
         if self.center:
+            # the test-test kernel is centered with the (weighted) train means of
+            # the test-train kernel on both sides
+            K_VV_cols = np.average(
+                K_VN, weights=self.centerer_.sample_weight_, axis=1
+            )
+            K_VV = (
+                K_VV
+                - K_VV_cols[:, np.newaxis]
+                - K_VV_cols[np.newaxis, :]
+                + self.centerer_.K_fit_all_
+            ) / self.centerer_.scale_
             K_NN = self.centerer_.transform(K_NN)
             K_VN = self.centerer_.transform(K_VN)
-            K_VV = self.centerer_.transform(K_VV)
 
         y = K_VN @ self.pky_
         Lkrr = np.linalg.norm(Y - y) ** 2 / np.linalg.norm(Y) ** 2
